@@ -13,7 +13,9 @@ package metajournal
 //   name_index_wrong_target: a name in MetricsStorage's by-name index maps to a metric whose
 //     latest delivered version holds that name, and it is that latest version;
 //   name_lookup_sole_holder_unreachable: a delivered metric that is the only delivered holder
-//     of its latest name is returned by GetMetaMetricByName;
+//     of its latest name, and whose claim on the name is the newest one delivered (no other
+//     metric was delivered with that name at a later version), is returned by
+//     GetMetaMetricByName;
 //   by_id_stale: GetMetaMetric returns the latest delivered version.
 // After faults stop and the delivery rounds are done: see finalOracle.
 
@@ -240,6 +242,13 @@ func (w *w7World) checkStorageStep(rep *w7Replica) {
 			return
 		}
 		if holders[d.Name] != 1 {
+			continue
+		}
+		if rep.nameClaim[d.Name] > d.Version {
+			// another metric was delivered with this name at a later version and has left it since:
+			// names are unique at the source, so this metric gave the name up before; the replica
+			// just has not seen its newer version yet. Nobody is known to hold the name.
+			r.Probe("stale_holder_of_released_name")
 			continue
 		}
 		bn := st.GetMetaMetricByName(d.Name)
